@@ -165,7 +165,9 @@ class Engine(ExprMixin, BuiltinMixin):
                 raise PathEnd()
             val = orc.decisions[orc.pos][0]
         orc.pos += 1
-        st.assume(cond if val else z3.Not(cond))
+        f = cond if val else z3.simplify(z3.Not(cond))
+        st.pc.append(f)                  # a branch decision: kept apart from assumptions (comprehension summaries
+        st.dec_ids.add(f.get_id())       # need decisions as antecedents, not as facts)
         return val
 
     def enumerate_paths(self, fn):
@@ -678,6 +680,8 @@ class Engine(ExprMixin, BuiltinMixin):
 
     def _havoc_locs(self, st: State, locs, env):
         for a in locs:
+            if a == "rng":
+                st.ghost["rng_used"] = True      # the callee may draw from the global numpy RNG
             if a in ("alloc", "alloc?", "rng", "evals"):
                 continue
             if a == "*":
